@@ -53,6 +53,9 @@ type c12Route struct {
 	V6     bool `json:"v6"`
 	Prefix int  `json:"prefix"`
 	NoLLGR bool `json:"no_llgr"`
+	// ID: path identifier (1..3) when R announces with ADD-PATH (case field AddPath), else 0; several entries may
+	// then share a prefix, each is one path with its own stale / re-announced fate
+	ID int `json:"id,omitempty"`
 }
 
 type c12EOR struct {
@@ -84,6 +87,8 @@ type c12Case struct {
 	// longer AS_PATH: R's route is preferred while it is fresh or merely stale, V's as soon as R's is LLGR-stale
 	// ("least preferred") or gone
 	Rival []int `json:"rival,omitempty"`
+	// AddPath: R's session has ADD-PATH (R sends, the server receives); routes carry path identifiers
+	AddPath bool `json:"add_path,omitempty"`
 }
 
 func drawC12(t *rapid.T) c12Case {
@@ -95,19 +100,24 @@ func drawC12(t *rapid.T) c12Case {
 	}
 	c.Open = c12Open{GR: b("o_gr", 9), NBit: b("o_n", 1), Time: rapid.SampledFrom([]int{4, 12, 30}).Draw(t, "o_time"),
 		Fams: [2]bool{b("o_f4", 3), b("o_f6", 2)}, LLGR: [2]bool{b("o_l4", 1), b("o_l6", 1)}, LLTime: rapid.SampledFrom([]int{6, 20}).Draw(t, "o_lltime")}
+	c.AddPath = rapid.IntRange(0, 3).Draw(t, "add_path") == 0
 	n := rapid.IntRange(1, 5).Draw(t, "nroutes")
 	seen := map[string]bool{}
 	for i := 0; i < n; i++ {
 		l := fmt.Sprintf("r%d", i)
 		r := c12Route{V6: rapid.Bool().Draw(t, l+"v6"), Prefix: rapid.IntRange(0, 3).Draw(t, l+"p"), NoLLGR: rapid.IntRange(0, 3).Draw(t, l+"nollgr") == 0}
-		k := fmt.Sprint(r.V6, r.Prefix)
+		if c.AddPath {
+			r.Prefix = rapid.IntRange(0, 1).Draw(t, l+"p2") // few prefixes: several identifiers per prefix
+			r.ID = rapid.IntRange(1, 3).Draw(t, l+"id")
+		}
+		k := fmt.Sprint(r.V6, r.Prefix, r.ID)
 		if seen[k] {
 			continue
 		}
 		seen[k] = true
 		c.Routes = append(c.Routes, r)
 	}
-	if rapid.Bool().Draw(t, "rivals") {
+	if !c.AddPath && rapid.Bool().Draw(t, "rivals") {
 		for i := range c.Routes {
 			if rapid.IntRange(0, 1).Draw(t, fmt.Sprintf("rival%d", i)) == 0 {
 				c.Rival = append(c.Rival, i)
@@ -226,10 +236,10 @@ type c12Run struct {
 	c     *c12Case
 	n     *simNet
 	r     rsPeer
-	obs   [2]rsPeer
+	obs   [3]rsPeer // 0: no LLGR capability, 1: LLGR for both families, 2: LLGR for IPv4 only
 	sess  *simSess
-	osess [2]*simSess
-	views [2]*rsView
+	osess [3]*simSess
+	views [3]*rsView
 	log   []string
 	t0    time.Duration // instant of the loss
 	st    *verifkit.Stats
@@ -248,6 +258,9 @@ func (x *c12Run) fail(sig, f string, a ...any) *verifkit.Failure {
 
 func (x *c12Run) openSpec(restarting bool) simOpenSpec {
 	spec := simOpenSpec{Families: []uint32{uint32(bgp.RF_IPv4_UC), uint32(bgp.RF_IPv6_UC)}, RR: true}
+	if x.c.AddPath {
+		spec.AddPath = []uint32{uint32(bgp.RF_IPv4_UC)<<8 | uint32(bgp.BGP_ADD_PATH_SEND), uint32(bgp.RF_IPv6_UC)<<8 | uint32(bgp.BGP_ADD_PATH_SEND)}
+	}
 	if x.c.Loss == c12HoldExpiry && !restarting {
 		spec.HoldTime = 9 // the second session negotiates hold time 0: the script sends no KEEPALIVEs
 	}
@@ -293,7 +306,7 @@ func (x *c12Run) announce(i int) {
 	if r.NoLLGR {
 		a.Comms = append(a.Comms, uint32(bgp.COMMUNITY_NO_LLGR))
 	}
-	_ = x.sess.send(rsAnnounce(&x.r, r.V6, r.Prefix, 0, a), rsTxOpt(&x.r))
+	_ = x.sess.send(rsAnnounce(&x.r, r.V6, r.Prefix, uint32(r.ID), a), rsTxOpt(&x.r))
 }
 
 func (x *c12Run) verify(m *c12Model, when string) *verifkit.Failure {
@@ -320,7 +333,7 @@ func (x *c12Run) verify(m *c12Model, when string) *verifkit.Failure {
 						}
 					}
 				}
-				loc[prefix.String()] = g
+				loc[fmt.Sprintf("%s#%d", prefix.String(), pa.RemoteID)] = g
 			}
 		})
 	}
@@ -328,7 +341,10 @@ func (x *c12Run) verify(m *c12Model, when string) *verifkit.Failure {
 	for i, r := range x.c.Routes {
 		s := m.routes[i]
 		p := c12Prefix(r)
-		g, ok := loc[p]
+		g, ok := loc[fmt.Sprintf("%s#%d", p, r.ID)]
+		if r.ID != 0 {
+			p = fmt.Sprintf("%s (path id %d)", p, r.ID)
+		}
 		if s.present {
 			want = append(want, fmt.Sprintf("%s stale=%v llgr=%v", p, s.stale, s.llgr))
 		}
@@ -366,7 +382,36 @@ func (x *c12Run) verify(m *c12Model, when string) *verifkit.Failure {
 		for i, r := range x.c.Routes {
 			s := m.routes[i]
 			p := c12Prefix(r)
-			wantHeld := s.present && (!s.llgr || oi == 1)
+			capable := oi == 1 || (oi == 2 && !r.V6) // LLGR-capable for the family of this route
+			if r.ID != 0 {
+				// several paths of R per prefix: the observer (no ADD-PATH) is sent the best of them - a path that is
+				// not LLGR-stale if there is one; evaluated once per prefix
+				first := true
+				agg := c12State{llgr: true}
+				for j, q := range x.c.Routes {
+					if q.V6 != r.V6 || q.Prefix != r.Prefix {
+						continue
+					}
+					if j < i {
+						first = false
+					}
+					if t := m.routes[j]; t.present {
+						agg.present = true
+						agg.stale = agg.stale || t.stale
+						if !t.llgr {
+							agg.llgr = false
+						}
+					}
+				}
+				if !first {
+					continue
+				}
+				if !agg.present {
+					agg.llgr = false
+				}
+				s = agg
+			}
+			wantHeld := s.present && (!s.llgr || capable)
 			fromV := false
 			if x.rival[i] {
 				wantHeld, fromV = true, !s.present || s.llgr
@@ -384,9 +429,9 @@ func (x *c12Run) verify(m *c12Model, when string) *verifkit.Failure {
 				}
 			}
 			if wantHeld != ok {
-				return x.fail("observer-view", "%s: observer %d (LLGR-capable=%v) holds %s = %v, must be %v (route present=%v stale=%v llgr-stale=%v)", when, oi, oi == 1, p, ok, wantHeld, s.present, s.stale, s.llgr)
+				return x.fail("observer-view", "%s: observer %d (LLGR-capable for the family=%v) holds %s = %v, must be %v (route present=%v stale=%v llgr-stale=%v)", when, oi, capable, p, ok, wantHeld, s.present, s.stale, s.llgr)
 			}
-			if ok && oi == 1 {
+			if ok && capable {
 				has := false
 				for _, cv := range e.Attrs.Comms {
 					if cv == uint32(bgp.COMMUNITY_LLGR_STALE) {
@@ -415,8 +460,8 @@ func runC12(t *testing.T) func(c c12Case, st *verifkit.Stats) *verifkit.Failure 
 			}
 			defer n.stop()
 			x := &c12Run{c: &c, n: n, st: st}
-			x.r = rsPeer{Addr: "10.0.0.1", ID: "10.0.0.1", Kind: rsEBGP, AS: 65001}
-			x.obs = [2]rsPeer{{Addr: "10.0.0.8", ID: "10.0.0.8", Kind: rsEBGP, AS: 65008}, {Addr: "10.0.0.9", ID: "10.0.0.9", Kind: rsEBGP, AS: 65009}}
+			x.r = rsPeer{Addr: "10.0.0.1", ID: "10.0.0.1", Kind: rsEBGP, AS: 65001, AddPathRecv: c.AddPath}
+			x.obs = [3]rsPeer{{Addr: "10.0.0.8", ID: "10.0.0.8", Kind: rsEBGP, AS: 65008}, {Addr: "10.0.0.9", ID: "10.0.0.9", Kind: rsEBGP, AS: 65009}, {Addr: "10.0.0.7", ID: "10.0.0.7", Kind: rsEBGP, AS: 65007}}
 			if err := n.s.AddPeer(ctx, &api.AddPeerRequest{Peer: x.apiPeerR()}); err != nil {
 				return verifkit.Failf("addpeer", "%v", err)
 			}
@@ -428,7 +473,7 @@ func runC12(t *testing.T) func(c c12Case, st *verifkit.Stats) *verifkit.Failure 
 			}
 			for oi := range x.obs {
 				ap := rsApiPeer(rsGlobal{}, &x.obs[oi])
-				if oi == 1 {
+				if oi >= 1 {
 					ap.GracefulRestart = &api.GracefulRestart{Enabled: true, RestartTime: 120, LonglivedEnabled: true}
 					for _, af := range ap.AfiSafis {
 						af.MpGracefulRestart = &api.MpGracefulRestart{Config: &api.MpGracefulRestartConfig{Enabled: true}}
@@ -442,6 +487,10 @@ func runC12(t *testing.T) func(c c12Case, st *verifkit.Stats) *verifkit.Failure 
 			n.settle()
 			for oi := range x.obs {
 				spec := rsOpenSpec(&x.obs[oi])
+				if oi == 2 {
+					spec.GR = &simGR{Time: 120, Families: []uint32{uint32(bgp.RF_IPv4_UC)<<1 | 1, uint32(bgp.RF_IPv6_UC)<<1 | 1},
+						LLGR: []uint32{uint32(bgp.RF_IPv4_UC)}, LLGRTime: 1000}
+				}
 				if oi == 1 {
 					spec.GR = &simGR{Time: 120, Families: []uint32{uint32(bgp.RF_IPv4_UC)<<1 | 1, uint32(bgp.RF_IPv6_UC)<<1 | 1},
 						LLGR: []uint32{uint32(bgp.RF_IPv4_UC), uint32(bgp.RF_IPv6_UC)}, LLGRTime: 1000}
@@ -511,6 +560,9 @@ func runC12(t *testing.T) func(c c12Case, st *verifkit.Stats) *verifkit.Failure 
 			x.logf("session lost (kind %d); graceful=%v", c.Loss, m.graceful())
 			m.atLoss()
 			st.Label(fmt.Sprintf("graceful-%v", m.graceful()))
+			if c.AddPath {
+				st.Label("add-path-source")
+			}
 			if f := x.verify(m, "right after the loss"); f != nil {
 				return f
 			}
